@@ -176,7 +176,7 @@ def collect_failures(prop, summ, limit=20):
                           case=dict(scenario=scen, violations=mine, sched=s["sched"], seed=summ.get("seed"), storage=summ.get("storage"),
                                     profile=s.get("profile"), order=summ.get("order")),
                           what="%s: %s" % (v["rule"], v["what"]),
-                          signature="%s %s" % (prop, v["rule"])))
+                          signature=("%s [%s]" % (prop, v["class"])) if v.get("class") else "%s %s" % (prop, v["rule"])))
         if len(fails) >= limit:
             break
     return fails
